@@ -19,6 +19,7 @@ import (
 
 	"bytes"
 	"net"
+	"net/http"
 
 	ws "github.com/ossrs/go-oryx-lib/websocket"
 	"verifharness/internal/h"
@@ -170,6 +171,8 @@ func c15SoloFrames(c *h.Ctx, server bool, run func(*ws.Conn) error) (frames []ws
 }
 
 func c15FrameHex(c *h.Ctx, f wsFrame) string { return c.O.Call("ws.ser", f.String()) }
+
+var c15ReadN int
 
 func c15Run(c *h.Ctx, sc c15Scenario, id string) {
 	role := roleStr(sc.server)
@@ -374,6 +377,40 @@ done:
 			c.Hold(bytes.Equal(got, dataPayload) && ndata == sc.nframes, "C15.data_message_intact", in, fmt.Sprintf("%d data frames, %d bytes", ndata, len(got)), fmt.Sprintf("%d frames, %d bytes", sc.nframes, len(dataPayload)))
 		} else {
 			c.Hold(bytes.HasPrefix(dataPayload, got), "C15.data_prefix", in, fmt.Sprintf("%d bytes", len(got)), "a prefix of the message")
+		}
+		// ... and the goroutine that READS at the other end (the library itself, opposite role) is handed that message
+		// intact, through ReadMessage or through the message reader in small pieces, whatever control frames the
+		// interleaving has put between its fragments
+		if senders[0].err == nil {
+			c15ReadN++
+			back := ws.VerifNewConn(newWsFake(wire), !sc.server, 0, c15B, false)
+			var gotMsg []byte
+			res := h.Safe(func() string {
+				if c15ReadN%2 == 0 {
+					_, p, err := back.ReadMessage()
+					if err != nil {
+						return "ReadMessage: " + err.Error()
+					}
+					gotMsg = p
+					return "ok"
+				}
+				_, rd, err := back.NextReader()
+				if err != nil {
+					return "NextReader: " + err.Error()
+				}
+				buf := make([]byte, 1+c15ReadN%7)
+				for {
+					n, err := rd.Read(buf)
+					gotMsg = append(gotMsg, buf[:n]...)
+					if err == io.EOF {
+						return "ok"
+					}
+					if err != nil {
+						return "message reader: " + err.Error()
+					}
+				}
+			})
+			c.Hold(res == "ok" && bytes.Equal(gotMsg, dataPayload), "C15.data_message_delivered_to_reader", in+" wire="+h.Trunc(wireHex, 300), fmt.Sprintf("%s, %d bytes", res, len(gotMsg)), fmt.Sprintf("ok, %d bytes", len(dataPayload)))
 		}
 		// nothing after a Close frame
 		if sawClose >= 0 {
@@ -758,6 +795,7 @@ func c15(c *h.Ctx) {
 		c15StalledPeer(c, server)
 	}
 	c15CloseWays(c)
+	c15ViaHandshake(c)
 	c15DeadlineDuringControl(c, true)
 	c15DeadlineDuringControl(c, false)
 	kinds := []string{"ping", "pong", "close", "xclose", "xclose-partial"}
@@ -1008,4 +1046,146 @@ func c15DeadlineDuringControl(c *h.Ctx, server bool) {
 	c.Hold(errPing == nil && errData == nil && okWire && pings == 1 && bytes.Equal(payload, data), "C15_wire.deadline_set_during_a_control_frame", in,
 		fmt.Sprintf("ping: %v; data: %v; wire: %s", errPing, errData, h.Trunc(rep, 200)), "both nil; one whole ping and the data message on the wire")
 	c.Case("deadline-during-control/"+roleStr(server), in, true)
+}
+
+// c15Handshaken gives a connection obtained the way applications obtain one — Upgrader.Upgrade on a hijacked
+// connection, Dialer.Dial over a dialled transport — and a function returning what the endpoint has put on the
+// transport AFTER the opening handshake.
+func c15Handshaken(server bool, wbuf int) (*ws.Conn, func() []byte, error) {
+	key := "dGhlIHNhbXBsZSBub25jZQ=="
+	if server {
+		hd := http.Header{"Connection": {"Upgrade"}, "Upgrade": {"websocket"}, "Sec-Websocket-Version": {"13"}, "Sec-Websocket-Key": {key}}
+		req := &http.Request{Method: "GET", Header: hd, Host: "example.com", Proto: "HTTP/1.1", ProtoMajor: 1, ProtoMinor: 1}
+		rw := &hsRW{hdr: http.Header{}, conn: newWsFake(nil)}
+		up := ws.Upgrader{ReadBufferSize: 256, WriteBufferSize: wbuf}
+		conn, err := up.Upgrade(rw, req, nil)
+		if err != nil {
+			return nil, nil, err
+		}
+		n := len(rw.conn.Written())
+		return conn, func() []byte { return rw.conn.Written()[n:] }, nil
+	}
+	var sc *hsScript
+	d := ws.Dialer{ReadBufferSize: 256, WriteBufferSize: wbuf}
+	d.NetDial = func(network, addr string) (net.Conn, error) {
+		sc = &hsScript{respond: func(req []byte) []byte {
+			k := ""
+			for _, l := range strings.Split(string(req), "\r\n") {
+				if strings.HasPrefix(strings.ToLower(l), "sec-websocket-key: ") {
+					k = l[len("sec-websocket-key: "):]
+				}
+			}
+			return []byte("HTTP/1.1 101 Switching Protocols\r\nUpgrade: websocket\r\nConnection: Upgrade\r\nSec-WebSocket-Accept: " + hsAccept(k) + "\r\n\r\n")
+		}}
+		return sc, nil
+	}
+	conn, _, err := d.Dial("ws://example.com/path", nil)
+	if err != nil {
+		return nil, nil, err
+	}
+	n := sc.req.Len()
+	var mu sync.Mutex
+	_ = mu
+	return conn, func() []byte { return append([]byte(nil), sc.req.Bytes()[n:]...) }, nil
+}
+
+// c15ViaHandshake: the properties of the frame stream on connections that went through the opening handshake (whose
+// buffers the handshake has used before the first frame): the FIRST data message of every size class, written while
+// other goroutines send pings, then a Close.
+func c15ViaHandshake(c *h.Ctx) {
+	for _, server := range []bool{true, false} {
+		for _, wbuf := range []int{256, 4096} {
+			for _, size := range []int{0, 125, 126, 65535, 65536, 70000} {
+				for way := 0; way < 2; way++ {
+					in := fmt.Sprintf("role=%s, connection from the opening handshake (write buffer %d): first data message of %d bytes (%s) while 2 goroutines send 3 pings each; then Close", roleStr(server), wbuf, size, []string{"WriteMessage", "NextWriter + two Writes + Close"}[way])
+					conn, wireOf, err := c15Handshaken(server, wbuf)
+					if !c.Hold(err == nil, "C15.handshake_ok", in, fmt.Sprint(err), "a connection") {
+						continue
+					}
+					payload := c15DataPayload(size)
+					var wg sync.WaitGroup
+					errs := make([]error, 3)
+					for g := 0; g < 2; g++ {
+						wg.Add(1)
+						go func(g int) {
+							defer wg.Done()
+							defer func() {
+								if p := recover(); p != nil {
+									errs[g] = fmt.Errorf("panic: %v", p)
+								}
+							}()
+							for i := 0; i < 3; i++ {
+								if e := conn.WriteControl(ws.PingMessage, []byte{byte('a' + g), byte('0' + i)}, time.Now().Add(5*time.Second)); e != nil {
+									errs[g] = e
+								}
+								runtime.Gosched()
+							}
+						}(g)
+					}
+					wg.Add(1)
+					go func() {
+						defer wg.Done()
+						defer func() {
+							if p := recover(); p != nil {
+								errs[2] = fmt.Errorf("panic: %v", p)
+							}
+						}()
+						if way == 0 {
+							errs[2] = conn.WriteMessage(ws.BinaryMessage, payload)
+							return
+						}
+						w, e := conn.NextWriter(ws.BinaryMessage)
+						if e == nil {
+							if _, e = w.Write(payload[:size/3]); e == nil {
+								if _, e = w.Write(payload[size/3:]); e == nil {
+									e = w.Close()
+								}
+							}
+						}
+						errs[2] = e
+					}()
+					wg.Wait()
+					cerr := conn.WriteControl(ws.CloseMessage, ws.FormatCloseMessage(1000, "bye"), time.Now().Add(5*time.Second))
+					c.Hold(errs[0] == nil && errs[1] == nil && errs[2] == nil && cerr == nil, "C15.no_spurious_failure", in, fmt.Sprint(errs, cerr), "all nil")
+					wire := wireOf()
+					rep := c.O.Call("ws.parse", roleStr(server), "0", h.Hex(wire))
+					ok := strings.HasPrefix(rep, "ok ")
+					var data []byte
+					nping, nclose, last := 0, 0, -1
+					if ok {
+						fs := wsParseFrames(rep[3:])
+						for i, f := range fs {
+							switch {
+							case f.Op <= 2:
+								data = append(data, h.UnHex(f.Payload)...)
+							case f.Op == 9:
+								nping++
+							case f.Op == 8:
+								nclose++
+								last = i
+							}
+						}
+						ok = last == len(fs)-1
+					}
+					c.Hold(ok && bytes.Equal(data, payload) && nping == 6 && nclose == 1, "C15_wire.after_handshake", in, h.Trunc(rep, 300), fmt.Sprintf("whole frames: the %d-byte message, 6 pings, the Close last", size))
+					// the reading end
+					back := ws.VerifNewConn(newWsFake(wire), !server, 0, 256, false)
+					var got []byte
+					res := h.Safe(func() string {
+						_, p, err := back.ReadMessage()
+						if err != nil {
+							return "ReadMessage: " + err.Error()
+						}
+						got = p
+						if _, _, err = back.ReadMessage(); !ws.IsCloseError(err, 1000) {
+							return fmt.Sprintf("after the message: %v", err)
+						}
+						return "ok"
+					})
+					c.Hold(res == "ok" && bytes.Equal(got, payload), "C15.data_message_delivered_to_reader", in, fmt.Sprintf("%s, %d bytes", res, len(got)), fmt.Sprintf("ok, %d bytes, then close 1000", size))
+					c.Case(fmt.Sprintf("via-handshake/%s/size=%d", roleStr(server), size), in, true)
+				}
+			}
+		}
+	}
 }
